@@ -14,12 +14,13 @@ import json, os, random, sys
 import pv, mpi
 
 
-def write_cfg(name, P, J, R, live=False):
+def write_cfg(name, P, J, R, live=False, boss=True):
+    b = "TRUE" if boss else "FALSE"
     with open(os.path.join(pv.SPEC, name + ".cfg"), "w") as f:
         if live:
-            f.write("SPECIFICATION FairSpec\nCONSTANTS\n  P = %d\n  J = %d\n  R = %d\nPROPERTY Termination\nCHECK_DEADLOCK FALSE\n" % (P, J, R))
+            f.write("SPECIFICATION FairSpec\nCONSTANTS\n  P = %d\n  J = %d\n  R = %d\n  BossWorks = %s\nPROPERTY Termination\nCHECK_DEADLOCK FALSE\n" % (P, J, R, b))
         else:
-            f.write("SPECIFICATION Spec\nCONSTANTS\n  P = %d\n  J = %d\n  R = %d\nINVARIANTS TypeOK ExactlyOnce AtMostOnce MapTruthful MapComplete RealJobs Drained StackSound FinishSafe\nCHECK_DEADLOCK FALSE\n" % (P, J, R))
+            f.write("SPECIFICATION Spec\nCONSTANTS\n  P = %d\n  J = %d\n  R = %d\n  BossWorks = %s\nINVARIANTS TypeOK ExactlyOnce AtMostOnce MapTruthful MapComplete RealJobs Drained StackSound FinishSafe\nCHECK_DEADLOCK FALSE\n" % (P, J, R, b))
 
 
 def scenario(rng, J, R, seed):
@@ -34,7 +35,14 @@ def scenario(rng, J, R, seed):
     return {"mode": "dispatch", "J": J, "R": R, "complexity": comp, "usec": us, "seed": seed, "maxus": rng.choice([0, 200, 1500])}
 
 
-def harness_facts(run, P, J, R):
+def scenario_pure_master(rng, J, R, seed, joblist):
+    """rank 0 is a pure master (MPIMaster(..., include_boss = false)); joblist selects the constructor taking the vector of job ids"""
+    sc = scenario(rng, J, R, seed)
+    sc.update({"mode": "dispatch_nomaster", "joblist": joblist, "boss": False})
+    return sc
+
+
+def harness_facts(run, P, J, R, boss=True):
     """returns None or a description of a violated fact"""
     maps = []
     runs = {}
@@ -52,7 +60,7 @@ def harness_facts(run, P, J, R):
         jobs = sorted(j for (j, k) in runs.get(r, []))
         if jobs != list(range(J)):
             return "round %d executed jobs %s, expected each of 0..%d exactly once" % (r, jobs, J - 1)
-        ms = {m for (k, rr, m) in maps if rr == r}
+        ms = {m for (k, rr, m) in maps if rr == r and (boss or k == 0)}       # a pure master alone holds the map
         if len(ms) != 1 or len([1 for (k, rr, m) in maps if rr == r]) != P:
             return "round %d: returned maps differ between ranks or are missing: %s" % (r, sorted(ms)[:3])
         m = dict(list(ms)[0])
@@ -71,23 +79,24 @@ def main():
     # (1) model checking
     safety = [(1, 2, 2), (2, 0, 2), (2, 3, 2), (3, 1, 1), (3, 2, 2), (3, 3, 1)] if not thorough else \
              [(1, 3, 3), (2, 0, 2), (2, 4, 2), (3, 2, 2), (3, 3, 2), (3, 4, 1), (4, 2, 2), (4, 3, 1), (4, 4, 1)]
-    for (P, J, R) in safety:
-        write_cfg("DispatcherGen", P, J, R)
+    pure = [(2, 2, 2), (3, 0, 1), (3, 3, 1)] if not thorough else [(2, 3, 3), (3, 0, 2), (3, 3, 2), (4, 2, 2), (4, 4, 1)]
+    for (P, J, R, boss) in [(P, J, R, True) for (P, J, R) in safety] + [(P, J, R, False) for (P, J, R) in pure]:
+        write_cfg("DispatcherGen", P, J, R, boss=boss)
         r = pv.run_tlc("Dispatcher", "DispatcherGen", workers=16, timeout=3000, heap="16g")
-        c.add_tlc(r, "Dispatcher P=%d J=%d R=%d" % (P, J, R))
+        c.add_tlc(r, "Dispatcher P=%d J=%d R=%d boss=%s" % (P, J, R, boss))
         if r.violated:
-            pv.log("INFRA: Dispatcher.tla violates %s for P=%d J=%d R=%d\n%s" % (r.violated, P, J, R, r.stdout[-3000:]))
+            pv.log("INFRA: Dispatcher.tla violates %s for P=%d J=%d R=%d boss=%s\n%s" % (r.violated, P, J, R, boss, r.stdout[-3000:]))
             sys.exit(2)
-        c.nontriv("mc P=%d J=%d R=%d" % (P, J, R))
+        c.nontriv("mc P=%d J=%d R=%d boss=%s" % (P, J, R, boss))
     live = [(1, 1, 2), (2, 2, 1), (3, 2, 1), (2, 1, 2)] if not thorough else [(1, 2, 2), (2, 3, 1), (3, 3, 1), (2, 2, 2), (4, 2, 1)]
-    for (P, J, R) in live:
-        write_cfg("DispatcherGen", P, J, R, live=True)
+    for (P, J, R, boss) in [(P, J, R, True) for (P, J, R) in live] + [(2, 2, 1, False), (3, 1, 2, False)]:
+        write_cfg("DispatcherGen", P, J, R, live=True, boss=boss)
         r = pv.run_tlc("Dispatcher", "DispatcherGen", workers=8, timeout=3000, heap="16g")
-        c.add_tlc(r, "Dispatcher liveness P=%d J=%d R=%d" % (P, J, R))
+        c.add_tlc(r, "Dispatcher liveness P=%d J=%d R=%d boss=%s" % (P, J, R, boss))
         if r.violated:
-            pv.log("INFRA: Dispatcher.tla violates Termination for P=%d J=%d R=%d\n%s" % (P, J, R, r.stdout[-3000:]))
+            pv.log("INFRA: Dispatcher.tla violates Termination for P=%d J=%d R=%d boss=%s\n%s" % (P, J, R, boss, r.stdout[-3000:]))
             sys.exit(2)
-        c.nontriv("live P=%d J=%d R=%d" % (P, J, R))
+        c.nontriv("live P=%d J=%d R=%d boss=%s" % (P, J, R, boss))
 
     # (2)+(3) real runs
     grid = [(1, 2, 1), (2, 0, 1), (2, 1, 3), (2, 5, 1), (3, 2, 3), (3, 5, 1), (3, 9, 1), (4, 1, 1), (4, 5, 3), (4, 9, 1), (8, 2, 1), (8, 9, 3)]
@@ -95,13 +104,16 @@ def main():
     if thorough:
         grid += [(2, 9, 3), (3, 0, 3), (5, 9, 1), (8, 5, 1), (16, 9, 1), (16, 20, 1)]
     n = 0
-    for (P, J, R) in grid:
+    # rank 0 as a pure master (both MPIMaster constructors: number of jobs / explicit list of job ids)
+    pm = [(2, 3, 2, "n"), (3, 0, 1, "n"), (3, 5, 2, "l"), (4, 2, 1, "l"), (4, 7, 1, "n"), (8, 9, 2, "l")] + ([(5, 9, 3, "n"), (16, 20, 1, "l")] if thorough else [])
+    for (P, J, R, how) in [(P, J, R, "skel") for (P, J, R) in grid] + pm:
         if len(c.violations) >= 6:
             break           # the tree is broken: further runs would each cost their full time-out
+        boss = how == "skel"
         for s in range(seeds):
             n += 1
             seed = c.seed * 1000 + n
-            sc = scenario(rng, J, R, seed)
+            sc = scenario(rng, J, R, seed) if boss else scenario_pure_master(rng, J, R, seed, how == "l")
             tag = "C16/run-%d" % n
             run = mpi.run_mpi(exe, sc, P, tag, timeout=60)
             c.evaluations += 1
@@ -113,12 +125,12 @@ def main():
                     c.violation("dispatch P=%d J=%d R=%d seed=%d %s (twice)" % (P, J, R, seed, what), replay, cls="termination" if run2.timed_out else "crash")
                     continue
                 run = run2
-            why = harness_facts(run, P, J, R)
+            why = harness_facts(run, P, J, R, boss)
             if why:
-                c.violation("dispatch P=%d J=%d R=%d seed=%d: %s" % (P, J, R, seed, why), replay, cls="facts")
+                c.violation("dispatch P=%d J=%d R=%d seed=%d%s: %s" % (P, J, R, seed, "" if boss else " (pure master)", why), replay, cls="facts")
                 continue
             if P <= 8:
-                lines = mpi.dispatcher_trace(run, J, R)
+                lines = mpi.dispatcher_trace(run, J, R, boss)
                 ok, r = mpi.validate_dispatcher(lines, tag + "-trace", timeout=150)
                 if r.error and not ok and "timeout" in r.error:
                     # the search for an interleaving did not finish: inconclusive (neither accepted nor refuted); the harness-level
@@ -140,7 +152,7 @@ def main():
                         {"P": P, "scenario": sc, "trace": os.path.join(pv.OUT, tag + "-trace.ndjson")}, cls="trace")
                     continue
                 c.traces += 1
-            c.nontriv("run P=%d J=%d R=%d" % (P, J, R))
+            c.nontriv("run P=%d J=%d R=%d %s" % (P, J, R, how))
     c.rule = ("model checking: all interleavings for the listed (P,J,R); runs: %d configurations x %d seeds with seeded delays at every MPI call; "
               "non-trivial = distinct (P,J,R) configurations model-checked or run" % (len(grid), seeds))
     c.trusted = ["TLC", "PMPI interposition logger in harness/pv_mpi.cpp", "OpenMPI, Boost.MPI"]
@@ -155,10 +167,11 @@ def replay(path):
     run = mpi.run_mpi(exe, obj["scenario"], obj["P"], "C16/replay", timeout=60)
     print("rc", run.rc, "timed_out", run.timed_out)
     sc = obj["scenario"]
-    why = harness_facts(run, obj["P"], sc["J"], sc["R"]) if not run.timed_out else "timeout"
+    boss = sc.get("boss", True)
+    why = harness_facts(run, obj["P"], sc["J"], sc["R"], boss) if not run.timed_out else "timeout"
     print("facts:", why)
     if why:
         return 1
-    ok, r = mpi.validate_dispatcher(mpi.dispatcher_trace(run, sc["J"], sc["R"]), "C16/replay-trace")
+    ok, r = mpi.validate_dispatcher(mpi.dispatcher_trace(run, sc["J"], sc["R"], boss), "C16/replay-trace")
     print("trace accepted:", ok)
     return 0 if ok else 1
